@@ -564,6 +564,13 @@ func genCase() *rapid.Generator[tcase] {
 			if rapid.Bool().Draw(t, "flat-pp") {
 				c.Initial.Other["path_params/params.yaml"] = "path_params:\n  - url: h.com/q/{id}\n"
 			}
+			// files of zero length that a deployment keeps in the configuration directories (placeholders the
+			// *.yaml loaders ignore): they are files like any other for "byte-for-byte what they were"
+			if rapid.Bool().Draw(t, "empty-files") {
+				for _, p := range rapid.SliceOfNDistinct(rapid.SampledFrom([]string{"flows/.gitkeep", "quotas/.gitkeep", "path_params/.gitkeep", "flows/archive/.keep"}), 1, 3, rapid.ID[string]).Draw(t, "which-empty") {
+					c.Initial.Other[p] = ""
+				}
+			}
 		}
 		if rapid.IntRange(0, 3).Draw(t, "ppayload") == 1 {
 			c.Params = append(c.Params, payloadFile{Name: rapid.SampledFrom([]string{"params.yaml", "team-a/params.yaml", "team-b/more.yaml"}).Draw(t, "ppname"),
